@@ -25,14 +25,14 @@ CLAIMED = {
    ref='DESIGN.md section 2, C16'),
 
  'C08': dict(level='proof',
-   text='(EF-1, proved) A search cannot change a matcher: find_all takes &self, the types cannot hold interior mutability, the iterator state is a fresh aggregate and no reachable body touches mutable/non-Freeze statics. (PO-1) Every MIR Assert (bounds, overflow, shift, division), every may-panic std call and every wrapping/overflowing shift amount in the five matcher modules is discharged automatically by an interval analysis using the private-field invariant m <= 64 established at all struct-literal sites (this decides the documented 64-symbol limit; two genuine word-width defects were found and repaired), or matches an audited entry with a proof sketch. (TS-9) KMP failure links are followed iteratively (q = lps[q-1] lies on a cycle in delta and on an inner cycle in lps). Completeness/soundness of the skipping logic for periodic patterns is otherwise NOT decided.',
+   text='(EF-1, proved) A search cannot change a matcher: find_all takes &self, the types cannot hold interior mutability, the iterator state is a fresh aggregate and no reachable body touches mutable/non-Freeze statics. (PO-1) Every MIR Assert (bounds, overflow, shift, division), every may-panic std call and every wrapping/overflowing shift amount in the five matcher modules is discharged automatically by an interval analysis using the private-field invariant m <= 64 established at all struct-literal sites (this decides the documented 64-symbol limit; two genuine word-width defects were found and repaired), or matches an audited entry with a proof sketch. (TB-13) per-byte Vec tables of the matcher constructors have 256 entries; (TS-9) KMP failure links are followed iteratively (q = lps[q-1] lies on a cycle in delta and on an inner cycle in lps). Completeness/soundness of the skipping logic for periodic patterns is otherwise NOT decided.',
    note='Trusted: rustc MIR (dev profile, overflow checks explicit), extractor, interval engine, and the audited table in '
         'rules/c08.py (manual proof sketches keyed by function/kind/normalised operands; any change of that arithmetic must '
         'be re-audited and is reported until then). Non-empty patterns assumed (quantifier of C08).',
    technique='static analysis: effect/Freeze analysis + interval abstract interpretation of panic obligations over rustc MIR',
    ref='DESIGN.md section 2, C08'),
  'C13': dict(level='other',
-   text='Necessary-condition rules decided on the MIR: (EF-4) the GFF serialiser traverses the attribute multimap only with all-values APIs (found and repaired a loss of multi-valued attributes); (VD-1) the Option returned by Phase::validate is examined so out-of-range phases become errors (found and repaired a silent coercion); (RI-4) the BED/GFF writers keep no scratch state across write() calls unless its first mention is a reset on every path; (TB-4) reader and writer take separators from the same GffType::separator table, csv delimiter TAB and comment # agree, readers are not flexible about the column count, writer and reader agree on csv quoting, regex named groups match the indexes used. Field-for-field equality through the external csv/serde layers is NOT decided.',
+   text='Necessary-condition rules decided on the MIR: (EF-4) the GFF serialiser traverses the attribute multimap only with all-values APIs (found and repaired a loss of multi-valued attributes); (VD-1) the Option returned by Phase::validate is examined so out-of-range phases become errors (found and repaired a silent coercion); (RI-4) the BED/GFF writers keep no scratch state across write() calls unless its first mention is a reset on every path; (TB-4) reader and writer take separators from the same GffType::separator table, csv delimiter TAB and comment # agree, readers are not flexible about the column count, writer and reader agree on csv quoting, GffType::separator holds the dialect table (GFF2/GTF2 values are not split), nothing in io::bed / io::gff parses a float (VD-2), regex named groups match the indexes used. Field-for-field equality through the external csv/serde layers is NOT decided.',
    note='Trusted: rustc MIR, extractor; multimap API contract (iter = first value per key; iter_all/flat_iter/get_vec = all values); csv builder semantics.',
    technique='static analysis: forbidden-callee / validator-discipline / table-agreement rules over resolved callees in rustc MIR',
    ref='DESIGN.md section 2, C13'),
@@ -42,7 +42,7 @@ CLAIMED = {
         'probabilistic components of the Model interface (initial, transition, observation, end) - this found that viterbi '
         'ignored end_prob (likelihood < Viterbi probability for models with end probabilities), fixed in /repo; (SB-4) within every '
         'Model impl the four accessors read pairwise distinct parameter tables and index them with the method parameters in '
-        'declaration order; (OR-1) in viterbi no end_prob is applied after the arg-max/traceback has been taken (the reported path must be optimal for the reported score); (GD-8b) LogProb::ln_sum_exp drops a term only for being the maximum or exact ln(0); (PO-8) every panic obligation (unwrap, indexing, index arithmetic) of viterbi/forward/backward and their closures is discharged or audited for T >= 1, S >= 1 - impossible sequences must give probability zero, not a panic. Equality with the path-sum/path-max definition and NaN freedom are NOT decided.',
+        'declaration order; (OR-1) in viterbi no end_prob is applied after the arg-max/traceback has been taken (the reported path must be optimal for the reported score); (GD-8b) LogProb::ln_sum_exp drops a term only for being the maximum or exact ln(0); (RI-5) no hoisted scratch vector of forward/backward/viterbi_matrices receives elements while it may hold those of an earlier iteration; TB-10 of C15 (cut-off of the fast exponential under ln_sum_exp) is part of this check; (PO-8) every panic obligation (unwrap, indexing, index arithmetic) of viterbi/forward/backward and their closures is discharged or audited for T >= 1, S >= 1 - impossible sequences must give probability zero, not a panic. Equality with the path-sum/path-max definition and NaN freedom are NOT decided.',
    note='Trusted: rustc MIR, extractor, call graph incl. closures. A component that is called but combined wrongly is not detected.',
    technique='static analysis: sibling/interface-coverage rule over the call graph of type-checked MIR',
    ref='DESIGN.md section 2, C14'),
@@ -51,7 +51,7 @@ CLAIMED = {
         'over / compared with / subtracted from the field usable_bits_per_block only, never a literal word size - found the '
         '(bit..32) defect for widths 3,5,6,7, fixed in /repo; (SB-5) new and with_capacity initialise all fields identically and '
         'assert the same limit, SmallInts push/set/real_value use the same strict threshold against S::max_value(); (GD-7) '
-        'BitEnc::get addresses storage only behind i < len and returns None otherwise, clear resets storage and len; (FW-1) FenwickTree::set/get combine stored values only through PrefixOp::operation (a value comparison is valid for max only, not for sums); (MK-1) every caller-supplied value widened into a storage word is masked with self.mask first in push, set and push_values - found push_values storing unmasked values, fixed in /repo. '
+        'BitEnc::get addresses storage only behind i < len and returns None otherwise, clear resets storage and len; (FW-1) FenwickTree::set/get combine stored values only through PrefixOp::operation (a value comparison is valid for max only, not for sums), the update walk is bounded by tree.len() (FW-2) and SmallInts::set overwrites an existing big value; (MK-1) every caller-supplied value widened into a storage word is masked with self.mask first in push, set and push_values - found push_values storing unmasked values, fixed in /repo. '
         'Observational equivalence with Vec over all histories and Fenwick trees are NOT decided.',
    note='Trusted: rustc MIR, extractor. Rules are necessary conditions; the packing arithmetic itself is not verified.',
    technique='static analysis: unit/belief-consistency and sibling-agreement rules over rustc MIR data flow',
@@ -61,7 +61,7 @@ CLAIMED = {
         'RankTransform::qgrams - found |A|.pow(q) sizing that panics for alphabets whose size is not a power of two, fixed in '
         '/repo; (SB-6) qgrams, rev_qgrams and get_width compute bits per symbol with the same expression and assert the same '
         'word-size bound; (TS-8) the vectors returned by find_kmer_matches_seq1_hashed and expand_kmer_matches, and the event '
-        'vectors of lcskpp/sdpkpp, pass through sort after their last push before being returned/read; (DK-1) the key under which matches/exact_matches merge hits is the signed difference text position - pattern position; (EV-1) lcskpp/sdpkpp tag start events idx + len and end events idx and decode tag >= len as start; (QM-1) the q-gram mask is all ones when q * bits fills the word; (PO-6) every panic obligation of qgram_matches/matches/exact_matches is discharged or audited - found the usize diagonal p - i that panics in debug builds, fixed in /repo. Exactness of matches and '
+        'vectors of lcskpp/sdpkpp, pass through sort after their last push before being returned/read; (DK-1) the key under which matches/exact_matches merge hits is the signed difference text position - pattern position; (EV-1) lcskpp/sdpkpp tag start events idx + len and end events idx and decode tag >= len as start and address the Fenwick tree at the event column; (QM-1) the q-gram mask is all ones when q * bits fills the word; (PO-6) every panic obligation of qgram_matches/matches/exact_matches is discharged or audited - found the usize diagonal p - i that panics in debug builds, fixed in /repo. Exactness of matches and '
         'optimality of chains are NOT decided.',
    note='Trusted: rustc MIR, extractor. find_kmer_matches_seq2_hashed is deliberately exempt from TS-8 (its pushes are already in order).',
    technique='static analysis: data-flow provenance of allocation sizes, sibling agreement, must-pass-through (typestate) on the CFG',
@@ -86,7 +86,7 @@ CLAIMED = {
    text='One table clause decided exactly: (TB-2) the symbol order literal iterated by FMDIndex::backward_ext equals the '
         'complements (reconstructed from the dna::COMPLEMENT initialiser) of the index alphabet (literal of dna::n_alphabet plus '
         'the sentinel inserted and asserted in FMDIndex::from) in ascending byte order, and forward_ext is the swapped backward '
-        'extension by the complement symbol (checked structurally on the interval literals); SB-10 of C04 (sampled Occ table) is part of this check. Supermaximality and interval/occurrence exactness are NOT decided.',
+        'extension by the complement symbol (checked structurally on the interval literals); SB-10 of C04 (sampled Occ table) is part of this check; (RI-5) in smems / all_smems no element is appended to a hoisted scratch vector that may still hold elements of an earlier iteration. Supermaximality and interval/occurrence exactness are NOT decided.',
    note='Trusted: rustc MIR constants (byte-string literals), extractor, table reconstruction of C20/TB-6.',
    technique='static analysis: literal/constant table agreement extracted from type-checked MIR',
    ref='DESIGN.md section 2, C06'),
@@ -95,13 +95,13 @@ CLAIMED = {
         'and -ln10/10 within 2 ulp, are mutually inverse, and every From impl between LogProb/PHREDProb/Prob uses the factor or '
         'base-10 formula of its direction; (GD-5) Prob::checked builds Ok only on the edge of (0.0..=1.0).contains(&p); (GD-8) in '
         'ln_add_exp/ln_sum_exp/ln_sub_exp the difference of two log-probabilities is only formed behind an `== ln_zero()` guard '
-        '(no -inf - -inf = NaN); (GD-8b) ln_sum_exp drops terms only for being the maximum or exact ln(0) and ln_sub_exp compares with the default relative tolerance; (TB-10) the evaluated constants of the fast exponential satisfy MIN_VAL * ONEBYLOG2 + OFFSET_F64 >= 1 and MIN_VAL <= -40 (cut-off inside the domain of the bit trick and below the accuracy threshold). Every accuracy bound of the fast exponential is NOT decided (no static f64 error analysis in reach).',
+        '(no -inf - -inf = NaN); (GD-8b) ln_sum_exp drops terms only for being the maximum or exact ln(0) and ln_sub_exp compares with the default relative tolerance; (TB-5) LogProb::from(Prob) is ln of the probability itself; (TB-10) the evaluated constants of the fast exponential satisfy MIN_VAL * ONEBYLOG2 + OFFSET_F64 >= 1 and MIN_VAL <= -40 (cut-off inside the domain of the bit trick and below the accuracy threshold). Every accuracy bound of the fast exponential is NOT decided (no static f64 error analysis in reach).',
    note='Trusted: rustc const evaluation, MIR, extractor.',
    technique='static analysis: evaluated-constant checks and guard dominance over rustc MIR',
    ref='DESIGN.md section 2, C15'),
  'C17': dict(level='other',
    text='(GD-6) rank_1 reads the bit vector only behind i < n and returns None otherwise, select_x refuses j == 0 before any '
-        'access, rank_0 = (i+1) - rank_1(i), WaveletMatrix::rank asserts p < width before walking levels; (SB-9) select_1/select_0 '
+        'access, rank_0 = (i+1) - rank_1(i), WaveletMatrix::rank asserts p < width before walking levels; (NC-2) every value-changing integer cast in rank_select.rs / wavelet_matrix.rs is discharged by interval analysis; rank visits every level of the wavelet matrix; (SB-9) select_1/select_0 '
         'and RankSelect::new pair the matching superblock table, bit predicate and popcount; (TB-7) the evaluated DNA2INT table is '
         'injective on ACGTN$, fits the literal height, lower-case twins agree, and builder and query select bit (height-level-1). '
         'Equality with naive counting at superblock boundaries is NOT decided.',
@@ -113,23 +113,23 @@ CLAIMED = {
         '(identity pre-fill, the two pair literals, store shapes t[a]=b and t[a+32]=b+32 recognised in the MIR, anything else fails '
         'closed) and checked to be involutions that preserve case, fix non-letters and pair A-T/U, C-G; complement() is a plain '
         'lookup and revcomp = rev . map(complement), hence revcomp(revcomp(x)) = x. (TB-8) gc content counts exactly {C,G,c,g} and '
-        'gc_content/gc3_content use steps 1/3. (TS-10) in the ORF finder every path from a stop codon to the next symbol empties the pending start positions of that frame; (GD-11) every reported Orf is built behind a min_len test on its own start position. ORF soundness/completeness and alphabet rank bijection are NOT decided.',
+        'gc_content/gc3_content use steps 1/3. (TS-10) in the ORF finder every path from a stop codon to the next symbol empties the pending start positions of that frame; (GD-11) every reported Orf is built behind a min_len test on its own start position; gc content counts the symbols it visits (no size hint); (BR-1) constant byte ranges in the alphabets module end at 256. ORF soundness/completeness and alphabet rank bijection are NOT decided.',
    note='Trusted: rustc MIR constants, extractor, and that the recognised store shapes are the only writes to the table (checked: any other store fails closed).',
    technique='static analysis: table reconstruction from MIR literals + exhaustive finite check',
    ref='DESIGN.md section 2, C20'),
 
  'C03': dict(level='other',
-   text='Clauses decided: (SB-7) writer/reader agreement of the sampled suffix array - sample() stores row i exactly on i % rate == 0 with rate kept in field s and inserts extra_rows[i] for unsampled sentinel rows; get() reads sample[pos / s] exactly on pos % s == 0 and extra_rows[&pos] under the mirrored condition, behind index < len; (NF-1) no count that went through an int->f32->int round trip is used as a bound/length/index in sample(); (SB-5s) the LCP storage SmallInts uses the same strict small/big threshold in push, set and real_value; (NC-1) every value-changing integer cast in the suffix-array module (narrowing, signed/unsigned) is discharged by interval analysis or is one of two audited conversions, so a truncated sentinel count or rank is reported. Sortedness of the suffix array, sentinel ordering, LCP and shortest-unique-substring values and the LF-walk arithmetic are NOT decided.',
+   text='Clauses decided: (SB-7) writer/reader agreement of the sampled suffix array - sample() stores row i exactly on i % rate == 0 with rate kept in field s and inserts extra_rows[i] for unsampled sentinel rows; get() reads sample[pos / s] exactly on pos % s == 0 and extra_rows[&pos] under the mirrored condition, behind index < len; (NF-1) no count that went through an int->f32->int round trip is used as a bound/length/index in sample(); (SB-5s) the LCP storage SmallInts uses the same strict small/big threshold in push, set and real_value; (NC-1) every value-changing integer cast in the suffix-array module (narrowing, signed/unsigned) is discharged by interval analysis or is one of two audited conversions, so a truncated sentinel count or rank is reported; (TB-11) each SAIS recursion branch sorts LMS names in a type that holds its branch bound; SB-10 and PO-9 of C04 (Occ table and bwt.rs arithmetic, used for every sampling rate) are part of this check. Sortedness of the suffix array, sentinel ordering, LCP and shortest-unique-substring values and the LF-walk arithmetic are NOT decided.',
    note='Trusted: rustc MIR, extractor, guard normalisation.',
    technique='static analysis: writer/reader guard agreement (normalised comparisons + dominance) over rustc MIR',
    ref='DESIGN.md section 2, C03'),
  'C09': dict(level='proof',
-   text='Clauses proved on the MIR: (RI-3) Ukkonen::find_all_end clears and refills both reused DP columns on every path before the iterator is built, Matches::next never resizes them; (EF-2) for both instantiations of impl_myers! distance/find_all_end/find_best_end take &self and the Myers types cannot hold interior mutability; (PO-5) every panic / overflow obligation of the block-based column update (long::States::{new,add_state,step}, advance_block, ceil_div, word_size) is discharged or audited - this found max_dist + w overflowing for the usize::MAX that distance()/find_best_end() pass (wrong distances in release builds), repaired in /repo; (SB-11) both Myers constructors set the own bit of a pattern symbol on every iteration of the per-symbol loop, whatever the ambiguity table contains. That reported distances equal the edit-distance definition (bit-vector arithmetic, block activation logic, delegated crates) is NOT decided.',
+   text='Clauses proved on the MIR: (RI-3) Ukkonen::find_all_end clears and refills both reused DP columns on every path before the iterator is built, Matches::next never resizes them; (EF-2) for both instantiations of impl_myers! distance/find_all_end/find_best_end take &self and the Myers types cannot hold interior mutability; (PO-5) every panic / overflow obligation of the block-based column update (long::States::{new,add_state,step}, advance_block, ceil_div, word_size) is discharged or audited - this found max_dist + w overflowing for the usize::MAX that distance()/find_best_end() pass (wrong distances in release builds), repaired in /repo; (SB-11) both Myers constructors set the own bit of a pattern symbol on every iteration of the per-symbol loop, whatever the ambiguity table contains; (CF-1) in Ukkonen every store into the DP column is dominated by the call of the user cost function; (TB-12) find_best_end keeps the first minimum (min_by_key or a strict comparison). That reported distances equal the edit-distance definition (bit-vector arithmetic, block activation logic, delegated crates) is NOT decided.',
    note='Trusted: rustc MIR, extractor, RI engine; Vec::clear semantics.',
    technique='static analysis: must-reset dataflow and receiver/Freeze effect analysis over rustc MIR',
    ref='DESIGN.md section 2, C09'),
  'C10': dict(level='proof',
-   text='Refusal, reset and independence clauses proved on the MIR: (GD-2) Traceback::traceback_at reaches _traceback_at only on an edge equivalent (as polynomials) to pos + 2 <= self.pos, else None; (PO-7) the arithmetic on the caller-supplied end position cannot panic or wrap - this found hit_at(usize::MAX) being answered from stale columns in release builds, repaired in /repo; (EF-3) the four lazy *_at queries of both instantiations reach the traceback only through that guarded entry; (EF-8) they read no field that next() mutates other than the stored columns, so answers for searched ends do not depend on the search cursor; (GD-3) FullMatches::{start,path_reverse,alignment} run the traceback only when unsuccessfully_finished is false; (TS-5) both Matches constructors pass the state store through Traceback::new, which resizes it on both branches, then writes the sentinel column, then the first state; Traceback is constructed nowhere else; (TB-9) Subst/Ins/Del/Match each behind their own test. Validity of paths, ring-buffer wrap-around and equality of block-based and single-word alignments are NOT decided.',
+   text='Refusal, reset and independence clauses proved on the MIR: (GD-2) Traceback::traceback_at reaches _traceback_at only on an edge equivalent (as polynomials) to pos + 2 <= self.pos, else None; (PO-7) the arithmetic on the caller-supplied end position cannot panic or wrap - this found hit_at(usize::MAX) being answered from stale columns in release builds, repaired in /repo; (EF-3) the four lazy *_at queries of both instantiations reach the traceback only through that guarded entry; (EF-8) they read no field that next() mutates other than the stored columns, so answers for searched ends do not depend on the search cursor; (GD-3) FullMatches::{start,path_reverse,alignment} run the traceback only when unsuccessfully_finished is false; (TS-5) both Matches constructors pass the state store through Traceback::new, which resizes it on both branches, then writes the sentinel column, then the first state; Traceback is constructed nowhere else; (TB-9) Subst/Ins/Del/Match each behind their own test; (TS-11) update_aln writes all eight coordinate fields of the caller's Alignment on every path; (RI-6) the eager path_reverse clears the caller's operations vector before the traceback. Validity of paths, ring-buffer wrap-around and equality of block-based and single-word alignments are NOT decided.',
    note='Trusted: rustc MIR, extractor, call graph; impl_myers! is analysed in both instantiations (simple, long).',
    technique='static analysis: guard dominance, who-may-call over the call graph, must-pass-through ordering over rustc MIR',
    ref='DESIGN.md section 2, C10'),
@@ -140,13 +140,13 @@ CLAIMED = {
    technique='static analysis: panic-obligation enumeration with interval discharge, error-discipline and loop-shape rules, table agreement over rustc MIR',
    ref='DESIGN.md section 2, C11'),
  'C12': dict(level='other',
-   text='Error and independence clauses decided on the MIR of IndexedReader: (GD-4) read/read_iter need a complete fetch, both read_into_* validate stop <= idx.len and start <= stop before seek_to with Err otherwise, unknown names/numbers give Err, read_line turns an exhausted reader into Err(UnexpectedEof) before copying/consuming, fill_buffer runs only with bases left; (SB-2) buffer and iterator paths make the same checks; (TS-6) every fetch* sets start, stop and fetched_idx on every success path and nothing on failure, from the parameters in order; (ED-2) no plain Read::read whose byte count is ignored (short reads/truncation must not yield Ok); (PO-3) all reachable panic obligations discharged (stop - start via a difference constraint) or audited. Exactness of offsets for every (start, stop, width, CRLF) and fragmentation is NOT decided.',
+   text='Error and independence clauses decided on the MIR of IndexedReader: (GD-4) read/read_iter need a complete fetch, both read_into_* validate stop <= idx.len and start <= stop before seek_to with Err otherwise, unknown names/numbers give Err, read_line turns an exhausted reader into Err(UnexpectedEof) before copying/consuming, fill_buffer runs only with bases left; (SB-2) buffer and iterator paths make the same checks; (TS-6) every fetch* sets start, stop and fetched_idx on every success path and nothing on failure, from the parameters in order; (ED-2) no plain Read::read whose byte count is ignored (short reads/truncation must not yield Ok); (OR-2) fasta::Index never reorders the record vector after record numbers were handed out; (RI-7) every Ok return of read() follows seq.clear(); (PO-3) all reachable panic obligations discharged (stop - start via a difference constraint) or audited. Exactness of offsets for every (start, stop, width, CRLF) and fragmentation is NOT decided.',
    note='Trusted: rustc MIR, extractor, interval engine, 16 audited obligations (rules/c12.py); assumes index line width >= 1 as in the property quantifier.',
    technique='static analysis: guard dominance / must-store typestate / sibling agreement / panic obligations over rustc MIR',
    ref='DESIGN.md section 2, C12'),
 
  'C04': dict(level='other',
-   text='Clauses decided: (SB-10) writer/reader agreement of the sampled Occ table - Occ::new pushes a checkpoint for row i exactly when i % k == 0, after counting bwt[i], with k the stored field; Occ::get combines checkpoint r / k with a byte count over (q*k, r] (added) and, in the k > 64 look-ahead branch, checkpoint q + 1 with a count over (r, (q+1)*k] (subtracted); ranges and checkpoint indices are compared as polynomials in r, k and q = r / k, so algebraic rewrites are accepted and off-by-one changes are not; (GD-9) bwt() takes text[p-1] on p > 0 and text[n-1] otherwise; (EF-9) bwtfind is built by the stable counting sort, no unstable sort is reachable from it; (PS-1) less() applies its prefix sum to the whole table it returns. Exactness of less/prescan, invert_bwt and of the counts themselves over all texts is NOT decided.',
+   text='Clauses decided: (SB-10) writer/reader agreement of the sampled Occ table - Occ::new pushes a checkpoint for row i exactly when i % k == 0, after counting bwt[i], with k the stored field; Occ::get combines checkpoint r / k with a byte count over (q*k, r] (added) and, in the k > 64 look-ahead branch, checkpoint q + 1 with a count over (r, (q+1)*k] (subtracted); ranges and checkpoint indices are compared as polynomials in r, k and q = r / k, so algebraic rewrites are accepted and off-by-one changes are not; (GD-9) bwt() takes text[p-1] on p > 0 and text[n-1] otherwise; (EF-9) bwtfind is built by the stable counting sort, no unstable sort is reachable from it; (PS-1) less() applies its prefix sum to the whole table it returns; (PO-9) every panic / wrap obligation of bwt.rs is discharged or audited against the documented preconditions (38 audited). Exactness of less/prescan, invert_bwt and of the counts themselves over all texts is NOT decided.',
    note='Trusted: rustc MIR, extractor, expression reconstruction and the polynomial normaliser (rules/poly.py); bytecount::count counts occurrences in the given slice.',
    technique='static analysis: writer/reader agreement with symbolic (polynomial) normalisation of index arithmetic over rustc MIR',
    ref='DESIGN.md section 2, C04'),
